@@ -238,4 +238,14 @@ theorem C04_reduce_order_irrelevant (K : Var → Nat) (f : Factor) (hf : f.WF K)
   funext w
   exact overrideL_perm a p hn w
 
+/-- **the variables to eliminate are a set**: `marginalize` / `maximize` called with the same variables in another
+    order (or listed twice) return the very same table, entry for entry -/
+theorem C04_eliminate_set (f : Factor) (vs vs' : List Var) (h : ∀ v, v ∈ vs ↔ v ∈ vs') :
+    marginalize f vs = marginalize f vs' ∧ maximize f vs = maximize f vs' := by
+  have hc : ∀ v, vs.contains v = vs'.contains v := by
+    intro v; rw [Bool.eq_iff_iff]; simp [h v]
+  unfold marginalize maximize Factor.inside Factor.outside
+  simp only [hc]
+  trivial
+
 end PgmVerif
